@@ -104,13 +104,22 @@ int item_group::each(item_handler_t fcn, void *ctx) const
 }
 int item_group::append(const identifier *id, metatype *mt)
 {
-	item<metatype> *it = _items.append(mt, 0);
+	/* name may belong to an entry of this group: entries move when the array grows */
+	identifier name;
+	if (id && !mpt_identifier_copy(&name, id)) {
+		return BadOperation;
+	}
+	long pos = _items.length();
+	item<metatype> *it = _items.append(0, 0);
 	if (!it) {
 		return BadOperation;
 	}
-	if (id) {
-		*it = *id;
+	/* entry without its name is no valid result: reference stays with caller */
+	if (id && !mpt_identifier_copy(it, &name)) {
+		_items.resize(pos);
+		return BadOperation;
 	}
+	it->set_instance(mt);
 	return _items.count();
 }
 size_t item_group::clear(const metatype *ref)
